@@ -110,6 +110,50 @@ static int longbufs(unsigned long seed, int n, size_t maxlen)
 	return bad != 0;
 }
 
+/* structured buffers: short sequences of 32-bit fields with boundary values (0, 1, -1, sign bits, byte patterns), in both byte
+ * orders, behind 0..9 zero bytes and in front of 0..3 further bytes, from register values that include 0 and all ones, at every
+ * start alignment, whole and split at every position - the kind of data (counters, flags, padding) that a data-dependent
+ * shortcut in the routine would be written for, and that random bytes never contain */
+static int words(void)
+{
+	static const uint32_t sp[] = { 0, 1, 2, 0x7f, 0x80, 0xff, 0x100, 0xffff, 0x10000, 0x7fffffff, 0x80000000u, 0xffffffffu, 0xfffffffeu,
+	                               0x01010101, 0x80808080u, 0xff00ff00u };
+	static const unsigned inits[] = { 0, 1, 0x8000, 0xffff, 0xa001, 0xc0c1 };
+	enum { NS = sizeof sp / sizeof sp[0] };
+	unsigned long cases = 0, bad = 0; long first[6] = { -1, -1, -1, -1, -1, -1 };
+	uint8_t raw[128];
+	rs = 12345;
+	for (int nw = 1; nw <= 3; nw++) {
+		unsigned long combos = 1; for (int i = 0; i < nw; i++) combos *= NS;
+		for (unsigned long c = 0; c < combos; c++)
+		for (int be = 0; be < 2; be++)
+		for (int pre = 0; pre <= 9; pre += (nw == 3 ? 4 : 1))
+		for (unsigned ii = 0; ii < sizeof inits / sizeof inits[0]; ii++) {
+			int al = (int) ((c + pre + ii) % 8), suf = (int) ((c + be) % 4);
+			uint8_t *buf = (uint8_t *) ((((uintptr_t) raw + 7) & ~(uintptr_t) 7) + al);
+			size_t len = 0; unsigned long cc = c;
+			for (int i = 0; i < pre; i++) buf[len++] = 0;
+			for (int i = 0; i < nw; i++) {
+				uint32_t v = sp[cc % NS]; cc /= NS;
+				for (int k = 0; k < 4; k++) buf[len++] = be ? (v >> (24 - 8 * k)) & 0xff : (v >> (8 * k)) & 0xff;
+			}
+			for (int i = 0; i < suf; i++) buf[len++] = rnd() & 0xff;
+			unsigned want = inits[ii];
+			for (size_t i = 0; i < len; i++) want = tstep(want, buf[i]);
+			uint16_t whole = inits[ii]; lha_crc16_buf(&whole, buf, len);
+			int ok = whole == want;
+			for (size_t cut = 1; cut < len && ok; cut++) {
+				uint16_t pw = inits[ii]; lha_crc16_buf(&pw, buf, cut); lha_crc16_buf(&pw, buf + cut, len - cut);
+				if (pw != want) ok = 0;
+			}
+			cases++;
+			if (!ok) { if (!bad) { first[0] = nw; first[1] = (long) c; first[2] = be; first[3] = pre; first[4] = inits[ii]; first[5] = al; } bad++; }
+		}
+	}
+	printf("{\"mode\":\"words\",\"cases\":%lu,\"mismatch\":%lu,\"first\":[%ld,%ld,%ld,%ld,%ld,%ld]}\n", cases, bad, first[0], first[1], first[2], first[3], first[4], first[5]);
+	return bad != 0;
+}
+
 /* replay of TLC-generated behaviours: lines "n p1len b.. p1reg p2len ..." (converted by the
  * runner from the JSON history): each piece is fed and the register compared after each */
 static int vectors(const char *path)
@@ -174,5 +218,6 @@ int main(int argc, char **argv)
 	if (!strcmp(argv[1], "pairs2")) return pairs2(atoi(argv[3]), 1);
 	if (!strcmp(argv[1], "long")) return longbufs(strtoul(argv[3], 0, 10), atoi(argv[4]), strtoul(argv[5], 0, 10));
 	if (!strcmp(argv[1], "vectors")) return vectors(argv[3]);
+	if (!strcmp(argv[1], "words")) return words();
 	return 2;
 }
